@@ -216,6 +216,14 @@ def valuations(j, rng, n):
         # R1 = R0 * Rot(axis, dth) with the relative rotation about a coordinate axis conjugated by Q
         Rrel = Q @ gamma.rotz(dth) @ Q.T
         R0 = gamma.rotz(rng.uniform(-3, 3)) @ gamma.rotx(rng.uniform(-3, 3)) if i % 3 else np.eye(3)
+        if i % 5 == 4 and i % 3:
+            # the start turns by almost half a turn about the axis of the relative rotation and the end by a little more
+            # than half a turn: the two matrices convert to quaternions of opposite sign, so the arc taken when the
+            # shorter one is not requested is the long one (quaternion angle close to, not at, pi)
+            a_, b_ = rng.uniform(0.02, 0.4), rng.uniform(0.02, 0.4)
+            R0 = Q @ gamma.rotz(math.pi - a_) @ Q.T
+            dth = a_ + b_
+            Rrel = Q @ gamma.rotz(dth) @ Q.T
         R1 = R0 @ Rrel
         axis = Q[:, 2]
         t0 = np.array([rng.gauss(0, 1) for _ in range(3)]) * 10 ** rng.uniform(-3, 3) if i % 3 else np.zeros(3)
@@ -224,6 +232,7 @@ def valuations(j, rng, n):
         band = "dtheta=%s" % ("tiny" if dth < 1e-5 else "near-pi" if dth > 3.1 else "mid")
         sc = max(1.0, float(np.max(np.abs(t0))), float(np.max(np.abs(t1))))
         with_start = bool(i % 3)
+        taken = {}
         for site, (fn, has_t) in routes3(T0, T1, with_start).items():
             for s in svals:
                 cid = (site, band, "s=%g" % s)
@@ -233,6 +242,8 @@ def valuations(j, rng, n):
                 if r is None:
                     continue
                 R = r[:3, :3]
+                if "-q" not in site:
+                    taken.setdefault(("shortest" in site, s), []).append((site, R))
                 ok = gamma.validity_residual("SO3", R) <= 1e-9                            # a valid member for every s
                 mode = "not-a-group-member"
                 if ok and has_t:
@@ -246,6 +257,15 @@ def valuations(j, rng, n):
                     ok = ds <= TOL or ("shortest" not in site and dl <= TOL)
                     mode = "not-constant-rate-about-fixed-axis"
                 check(j, ok, site, feat, mode, dict(detail, got=r.tolist()), cid)
+        # the matrix functions, the pose-class method and the quaternion routes agree: with the same setting of the
+        # shorter-arc option and the same quaternions (those the matrices convert to) they take the same arc
+        for (sh, s), lst in taken.items():
+            site0, Ra = lst[0]
+            for site, Rb in lst[1:]:
+                cid = ("agree", site, band, "interior" if 0 < s < 1 else "end")
+                check(j, float(np.max(np.abs(Ra - Rb))) <= TOL, site, "%s;s=%g;start=%s" % (band, s, with_start),
+                      "disagrees-with-" + site0.replace("|", "/"),
+                      {"kind": "valuation", "dtheta": dth, "s": s, "T0": T0.tolist(), "T1": T1.tolist(), "other": site0}, cid)
         # s outside [0,1] must raise for the 3D matrix and quaternion interpolators
         q0, q1 = UnitQuaternion(SO3(R0, check=False)), UnitQuaternion(SO3(R1, check=False))
         for site, fn in {"base.trinterp(T)": lambda s: b.trinterp(T0, T1, s), "base.trinterp(R)": lambda s: b.trinterp(R0, R1, s),
